@@ -16,7 +16,7 @@ Pick(tag, i) == CHOOSE c \in Cells(i) : c.tag = tag
 BaseCells == <<
   <<"scalar:u16", "fix:4:z", "fix:4:none", "dyn", "meta:Code", "meta:shared:l0", "match:u16:list", "ck:u32:REG">>,
   <<"len:u16:match:two", "scalar:f64:rep", "fix:4:r0:rep", "dyn:rep", "meta:Qty:rep", "obj:named", "inl:d1", "ck:u8:REG", "meta:sharedz:l0", "fix:4:none:rep">>,
-  <<"scalar:i64", "fix:10:z", "meta:Alias", "meta:Txt", "match:string:list", "fix:4:rsp", "fix:4:ldef", "scalar:u8", "ck:u16:NONE">> >>
+  <<"scalar:i64", "fix:10:z", "meta:Alias", "meta:Txt", "match:string:list", "fix:4:rsp", "fix:4:ldef", "scalar:u8", "ck:u16:NONE", "match:u16z:list">> >>
 BaseOpts == <<O("", "", "", "", ""), O("true", "u8", "u32", "", ""), O("", "", "", "true", "0")>>
 
 MkProg(b) == LET cs == [i \in 1..Len(BaseCells[b]) |-> Pick(BaseCells[b][i], i)]
